@@ -27,9 +27,11 @@ SMALL = list(range(0, 13))
 
 
 def cstr(s):
-    """coqlit.cstr, with the byte list of non-printable strings read in nat scope (case files open Z_scope)."""
+    """coqlit.cstr; the byte list of a non-printable string must be read in nat scope (case files open Z_scope)."""
     t = coqlit.cstr(s)
-    return t[:-2] + ']%nat)' if t.startswith('(bs [') else t
+    if t.startswith('(bs [') and not t.endswith(']%nat)'):
+        t = t[:-2] + ']%nat)'
+    return t
 
 
 def sgn(x):
@@ -526,6 +528,7 @@ def run(ctx):
         if not dup:
             tf_oracle(entries, fs, got, {'op': 'Timeframe.update', 'entries': entries, 'for_server': fs})
 
+    ctx.notes.append('C14: the model reads version and patch texts as ASCII (the banner is reduced to printable ASCII before Software.parse; table tokens are ASCII); Unicode decimal digits accepted by \\d / int() are outside the model and the generators')
     ctx.extra['op_histogram'] = hist
     ctx.extra['software_objects'] = stats
     ctx.extra['violation_counts'] = viol_seen
